@@ -543,6 +543,55 @@ Definition c20_static_ok (lower : bytes -> bytes) (fs : bytes -> fsres)
   end.
 
 (* ------------------------------------------------------------------ *)
+(* which clause of the property a refused observation breaks (the clause
+   identifiers the driver prints).  Proofs_Oracle.v states what each means. *)
+
+(* byte chunks a response hands out *)
+Definition chunks (r : resp) : list bytes :=
+  match r_parts r with Some ps => map p_data ps | None => [r_body r] end.
+
+(* is [ch] a contiguous piece of [c]? *)
+Fixpoint is_infix (ch c : bytes) : bool :=
+  has_prefix ch c || match c with [] => false | _ :: c' => is_infix ch c' end.
+
+Definition all_inside (content : bytes) (r : resp) : bool :=
+  forallb (fun ch => is_infix ch content) (chunks r).
+
+Inductive clause :=
+| CNeverPanics | CFullOr206Or416 | C206ExactBytes | CNeverOutsideContent | CPathUnderRoot.
+
+Definition serve_clause (lower : bytes -> bytes) (content ct : bytes) (st0 : Z) (hdr : bytes)
+           (o : result) : option clause :=
+  if c20_serve_ok lower content ct st0 hdr o then None
+  else Some
+    match o with
+    | RPanic => CNeverPanics
+    | Resp r => if negb (all_inside content r) then CNeverOutsideContent
+                else if r_status r =? 206 then C206ExactBytes else CFullOr206Or416
+    | _ => CFullOr206Or416
+    end.
+
+Definition static_clause (lower : bytes -> bytes) (fs : bytes -> fsres)
+           (root : bytes) (explicit : list (bytes * bytes))
+           (st0 : Z) (urlpath hdr : bytes) (o : result) : option clause :=
+  if c20_static_ok lower fs root explicit st0 urlpath hdr o then None
+  else Some
+    match o with
+    | RPanic => CNeverPanics
+    | Resp r =>
+        match fs (static_path root explicit urlpath) with
+        | FFile data _ =>
+            if negb (all_inside data r) then
+              (* without a Range header: the whole of some other file *)
+              if is_nil hdr && negb (is_nil (r_body r)) then CPathUnderRoot else CNeverOutsideContent
+            else if r_status r =? 206 then C206ExactBytes else CFullOr206Or416
+        | _ => (* nothing beneath the root to serve, yet bytes came back *)
+            if negb (is_nil (r_body r)) then CPathUnderRoot else CFullOr206Or416
+        end
+    | _ => CFullOr206Or416
+    end.
+
+(* ------------------------------------------------------------------ *)
 (* closed form of the response: the RFC reading of the header and total
    slicing only (no Go-shaped parsing, no partial operation).  Proofs show
    the transcription above computes exactly this. *)
